@@ -9,6 +9,7 @@
 //!   mut hdr <id> <tag> <subtag|-> <edit>*  MultiEraHeader::decode
 //!   mut out <id> <era> <edit>*             MultiEraOutput::decode
 //!   mut addr <id> <edit>*                  Address::from_bytes (+ ByronAddress::decode)
+//!   mut addrstr <id> <edit>*               Address::from_bech32 / Address::from_str / ByronAddress::from_base58 on the (lossy UTF-8) text
 //!   mut val <id> <type> <edit>*            minicbor::decode of a hand-written node-to-client payload decoder
 //!                                          (local-state query results, local-tx-submission reject reasons)
 //! `<id>` = `<file>` | `<file>#hdr` | `<file>#tx<i>` | `<file>[#tx<i>]#out<j>` | `…#addr<j>` | `lit:<hex>` |
@@ -181,6 +182,14 @@ fn targets() -> Vec<Target> {
               "82d818584283581cd2348b8ef7b8a6d1c922efa499c669b151eeef99e4ce3521e88223f8a101581e581cf281e648a89015a9861bd9e992414d1145ddaf80690be53235b0e2e5001a199983ba"] {
         ts.push(Target { kind: "addr", id: format!("lit:{a}"), extra: String::new() });
     }
+    // textual addresses (bech32 / base58 test vectors of pallas-addresses)
+    for a in ["addr1qx2fxv2umyhttkxyxp8x0dlpdt3k6cwng5pxj3jhsydzer3n0d3vllmyqwsx5wktcd8cc3sq835lu7drv2xwl2wywfgse35a3x",
+              "addr1gx2fxv2umyhttkxyxp8x0dlpdt3k6cwng5pxj3jhsydzer5pnz75xxcrzqf96k",
+              "stake1uyehkck0lajq8gr28t9uxnuvgcqrc6070x3k9r8048z8y5gh6ffgw",
+              "37btjrVyb4KDXBNC4haBVPCrro8AQPHwvCMp3RFhhSVWwfFmZ6wwzSK6JK1hY6wHNmtrpTf1kdbva8TCneM2YsiXT7mrzT21EacHnPpz5YyUdj64na",
+              "Ae2tdPwUPEZLs4HtbuNey7tK4hTKrwNwYtGqp7bDfCy2WdR3P6735W5Yfpe"] {
+        ts.push(Target { kind: "addrstr", id: format!("lit:{}", hex(a.as_bytes())), extra: String::new() });
+    }
     // node-to-client payload decoders: the reject reasons recorded in the repo's own tests …
     let nrej = reject_count();
     for n in 0..nrej {
@@ -202,6 +211,20 @@ pub fn generate(g: &mut Gen) {
     if ts.is_empty() { g.case(vec!["mut block missing.block".to_string()]); return; }
     // small artefacts (addresses, outputs, headers, txs) are cheap: they get most of the cases
     for i in 0..g.cases {
+        // one case in sixteen: random bytes (no artefact at all) through a random entry point
+        if i >= ts.len() && i % 16 == 0 {
+            let kinds = ["block", "tx", "hdr 0 1", "hdr 5 -", "out babbage", "out byron", "addr", "addrstr", "val TxValidationError", "val GovAction"];
+            let mut ops = vec![];
+            for _ in 0..6 {
+                let k = g.rng.below(40) as usize;
+                let b = g.rng.bytes(k);
+                let kind = kinds[g.rng.below(kinds.len() as u64) as usize];
+                let (k0, extra) = kind.split_once(' ').map(|(a, b)| (a, format!(" {b}"))).unwrap_or((kind, String::new()));
+                ops.push(format!("mut {} lit:{}{}", k0, hex(&b), extra));
+            }
+            g.case(ops);
+            continue;
+        }
         let t = &ts[if i < ts.len() { i } else { g.rng.below(ts.len() as u64) as usize }];
         let Some(base) = artifact(&t.id) else { continue };
         let prefix = if t.extra.is_empty() { format!("mut {} {}", t.kind, t.id) } else { format!("mut {} {} {}", t.kind, t.id, t.extra) };
@@ -247,6 +270,13 @@ fn decode(kind: &str, args: &[String], bytes: &[u8]) -> Option<bool> {
             Some(MultiEraOutput::decode(era, bytes).is_ok())
         }
         "val" => decode_val(args.first()?, bytes),
+        "addrstr" => {
+            let text = String::from_utf8_lossy(bytes).to_string();
+            let a = Address::from_bech32(&text).is_ok();
+            let b = text.parse::<Address>().is_ok();
+            let c = pallas_addresses::ByronAddress::from_base58(&text).map(|x| x.decode().is_ok()).unwrap_or(false);
+            Some(a || b || c)
+        }
         "addr" => Some(match Address::from_bytes(bytes) {
             Ok(Address::Byron(b)) => { let _ = b.decode(); true }
             Ok(_) => true,
@@ -261,7 +291,7 @@ pub fn run_case(case: &Case, out: &mut Out) {
     for op in &case.ops {
         if op.len() < 3 || op[0] != "mut" { out.reply("bad-op".into()); continue; }
         let kind = op[1].as_str();
-        let nargs = match kind { "hdr" => 2, "out" | "val" => 1, "block" | "tx" | "addr" => 0, _ => { out.reply("bad-op".into()); continue } };
+        let nargs = match kind { "hdr" => 2, "out" | "val" => 1, "block" | "tx" | "addr" | "addrstr" => 0, _ => { out.reply("bad-op".into()); continue } };
         if op.len() < 3 + nargs { out.reply("bad-op".into()); continue; }
         let (Some(mut bytes), Some(edits)) = (artifact(&op[2]), mutate::parse(&op[3 + nargs..])) else { out.reply("bad-op".into()); continue };
         for e in &edits { mutate::apply(&mut bytes, e); }
